@@ -72,7 +72,7 @@ binding:   (a) every CASE line of TLC (the structure and its expected token stri
                parsed-back structure; TLC (TracePkgRelation) must explain the parse with Parse and
                find Inverse / NoWarning / Stable.  Stdlib random seeded from VERIF_SEED is used
                instead of hypothesis (one generator, deterministic per seed).
-               Every recorded execution ends with step 7: the first string is parsed once more, 1 .. 4 random
+               Recorded executions end with step 7 (quick: every other one, and not those with 255+ items): the first string is parsed once more, 1 .. 4 random
                applicable edits (any container, any level, new and identical payloads, negated twins) are applied to
                that structure through the real mutators, and it is formatted / parsed / formatted; the trace carries
                the edit records, the abstracted live object and the results; TLC derives the edited structure with
@@ -194,7 +194,7 @@ import fileforms_c13 as ff
 MANIFEST = dict(
     technique="TLA+ specs PkgRelation + PkgRelationMemo (formatter as token sequence, the dependency regex as an automaton over token kinds with its optional groups in fixed order, the comma/pipe/blank/restriction splitters) model-checked by TLC over the closed space of all optional-part combinations x list shapes; every TLC case replayed into PkgRelation.str/parse_relations with concretized payloads; recorded executions on deeper random structures validated by TLC (TracePkgRelation); a memo layer with shared nested lists as history model, histories with in-place edits of returned structures replayed and recorded; a count module (PkgRelationCount) with one long list per structure at each of the five list levels of the grammar; an edit module (PkgRelationEdit) enumerating the histories of in-place mutator calls on a parse result at every nesting level, with a text-remembering layer under the formatter as negative control",
     text="TLC enumerates every relation made of one focus atom -- all 3612 combinations of architecture qualifier, version constraint with each of the five operators, architecture lists of 1-2 plain or negated entries and restriction formulas of 1-2 groups of 1-2 plain or negated terms -- at every position of every list shape up to 3 conjuncts of 2 alternatives, surrounded by context atoms, and checks in each state Parse(Format(r)) = r, that the parser's warning fallback is never taken and Format(Parse(Format(r))) = Format(r); Parse is the one big regex written as an automaton over token kinds (name, qualifier, operator, version, arch, '!', profile, brackets, separators, blanks) with exactly the blank tolerance of the code. Each enumerated structure carries TLC's expected token string and is replayed into the real PkgRelation.str / parse_relations with package names over [a-z0-9+.-], versions with epoch, '~', '+' and hyphenated revisions, real architecture names, qualifiers and lower-case profile names: the parse must equal the structure exactly, without a warning, and formatting again must give the same string. In the other direction random deeper structures (5x4 atoms, 3 arch entries, 3x3 restriction terms) are formatted and parsed by the real code, the strings are tokenized independently and TLC must explain the parsed-back structure with Parse and find it equal to the input. The quick tier enumerates lists of up to 2 atoms (one alternative, two alternatives, two conjuncts) with bare-name context atoms (18 058 structures), the thorough tier up to 3 x 2 with bare and fully-equipped context atoms (368 350 structures).",
-    note="Characters inside a payload token are sampled, not enumerated; profile names are lower case (DESIGN D3: the parser lower-cases them). The exact blanks written by the formatter are diagnostic only (drift). Trusted: TLC, the concretizer, the small context-sensitive tokenizer used for the recorded strings (a wrong tokenization is rejected by TLC, never accepted). A diagnostic leg (never an alarm) feeds strings with randomly changed blanks to the real parser and lets TLC predict the outcome, warning path included. The round trip is also checked as a history: a small TLA+ model of a memo layer with object identity (PkgRelationMemo) states that no earlier call or caller-side edit may influence Parse; after every replayed case and every recorded execution the returned structure is edited in place, the same string is parsed twice more and a relation sharing an alternative makes the round trip, under the same verdicts. Input dicts are built with all 120 key insertion orders, tuple / plain-tuple containers and size-stressed payloads (boundary lengths up to 8193 characters, epochs up to 19 digits). The length of every list level is a dimension of its own: a second TLA+ module (PkgRelationCount) states the same invariants for structures in which the conjunction, the alternatives of a conjunct, an architecture list, the groups of a restriction formula or the terms of a group have 256, 257, 258, 300 and 1000 items (thorough: 22 counts up to 2049), each replayed like any other case; ordinary cases are repeated to such counts and recorded executions with 255 - 1025 items per level are validated by TLC. The relations property is read from paragraphs built from str, bytes, lists, dicts and from fourteen kinds of file object / line source (real files buffered and unbuffered, short-read streams, gzip / bz2 / lzma wrappers, spooled files, generators) through the constructor and iter_paragraphs, a third of them with a line end or a separator of the value placed on a block boundary (2**9 .. 2**17, -2 .. +1). Structures obtained by editing a parse result in place are a TLA+ module of their own (PkgRelationEdit): every history of up to two (thorough: three) mutator calls -- append, insert, delete, item assignment, negated twin of a namedtuple, reverse, key assignment -- on every container at every nesting level of the parsed tree is enumerated by TLC with the structure the caller then holds, replayed through the real list / dict methods (several spellings per mutator) and judged by the same invariants after every edit; recorded executions end with random edits whose result TLC re-derives (EditTrail). A layer that remembers text per dict and forgets it only in the dict's own mutators is the negative control. Format calls on faulting twins of the caller's containers and paragraph constructions from failing line sources precede ordinary calls, which keep their verdicts. Eleven spec-level negative controls (eight in the quick tier; seventeen TLC runs in the thorough tier) and the corrupted control traces are required to fail in every run.",
+    note="Characters inside a payload token are sampled, not enumerated; profile names are lower case (DESIGN D3: the parser lower-cases them). The exact blanks written by the formatter are diagnostic only (drift). Trusted: TLC, the concretizer, the small context-sensitive tokenizer used for the recorded strings (a wrong tokenization is rejected by TLC, never accepted). A diagnostic leg (never an alarm) feeds strings with randomly changed blanks to the real parser and lets TLC predict the outcome, warning path included. The round trip is also checked as a history: a small TLA+ model of a memo layer with object identity (PkgRelationMemo) states that no earlier call or caller-side edit may influence Parse; after every replayed case and every recorded execution the returned structure is edited in place, the same string is parsed twice more and a relation sharing an alternative makes the round trip, under the same verdicts. Input dicts are built with all 120 key insertion orders, tuple / plain-tuple containers and size-stressed payloads (boundary lengths up to 8193 characters, epochs up to 19 digits). The length of every list level is a dimension of its own: a second TLA+ module (PkgRelationCount) states the same invariants for structures in which the conjunction, the alternatives of a conjunct, an architecture list, the groups of a restriction formula or the terms of a group have 256, 257, 258, 300 and 1000 items (thorough: 22 counts up to 2049), each replayed like any other case; ordinary cases are repeated to such counts and recorded executions with 255 - 1025 items per level are validated by TLC. The relations property is read from paragraphs built from str, bytes, lists, dicts and from fourteen kinds of file object / line source (real files buffered and unbuffered, short-read streams, gzip / bz2 / lzma wrappers, spooled files, generators) through the constructor and iter_paragraphs, a third of them with a line end or a separator of the value placed on a block boundary (2**9 .. 2**17, -2 .. +1). Structures obtained by editing a parse result in place are a TLA+ module of their own (PkgRelationEdit): every history of up to two (thorough: three) mutator calls -- append, insert, delete, item assignment, negated twin of a namedtuple, reverse, key assignment -- on every container at every nesting level of the parsed tree is enumerated by TLC with the structure the caller then holds, replayed through the real list / dict methods (several spellings per mutator) and judged by the same invariants after every edit; recorded executions end with random edits whose result TLC re-derives (EditTrail). A layer that remembers text per dict and forgets it only in the dict's own mutators is the negative control. Format calls on faulting twins of the caller's containers and paragraph constructions from failing line sources precede ordinary calls, which keep their verdicts. Eleven spec-level negative controls (seven in the quick tier; seventeen TLC runs in the thorough tier) and the corrupted control traces are required to fail in every run.",
     design="5 (C13)")
 
 OPS = ["<<", "<=", "=", ">=", ">>"]
@@ -1571,7 +1571,7 @@ def spec_negative_controls(ctx, quick=False):
         if r.violated != "MemoTransparent":
             raise core.MachineryError("negative control SharedNested (DeepStore = %s): expected TLC to report MemoTransparent, got %r" % (deep, r.violated))
         done.append("SharedNested%s -> MemoTransparent (PkgRelationMemo)" % (" + DeepStore" if deep == "TRUE" else ""))
-    done += edit_negative_controls(ctx, quick)
+    # (the controls of PkgRelationEdit run in a thread of their own: edit_negative_controls)
     # the count dimension: a splitter that stops after 256 separators (re.split(pattern, text, 256)) is invisible
     # to every list of at most 257 items (LimitBites holds in every state TLC looks at) and breaks the invariants
     # at 258 items -- at every list level
@@ -1612,7 +1612,9 @@ def edit_negative_controls(ctx, quick):
         done.append("a layer remembering text per dict that forgets in the mutators of every nested container: EditProps holds in all %d states (PkgRelationEdit)" % r.distinct)
     controls = [("parse", '{"key"}', None, "only the dict's own mutators forget (the seeded change C13-seedK)"),
                 ("format", '{"key"}', '{"bare"}', "text remembered at format time, a nested list that came in by key assignment is edited")]
-    if not quick:
+    if quick:
+        del controls[1:]
+    else:
         controls.insert(1, ("parse", '{"key", "arch", "groups"}', None, "the groups inside the formula are not watched"))
     for remember, forgets, starts, what in controls:
         cfg = re.sub(r"(?m)^  Remember = .*$", '  Remember = "%s"' % remember, base)
@@ -2092,7 +2094,7 @@ def random_structure(rng, big=None, count=None):
     return rel
 
 
-def record(r_py, stats=None):
+def record(r_py, stats=None, edit=True):
     """one trace: the structure, what the real code made of it (first round trip, then the history:
     edit the result in place and parse the same string again, round trip of a relation sharing an
     alternative, str(r) again after formatting an edited copy), everything interned to ids"""
@@ -2119,7 +2121,7 @@ def record(r_py, stats=None):
              "tc": [], "pm": [], "mixok": False,
              "re": [], "rs": [], "ts": [], "ps": [], "warns": False, "sames": False,
              "fmtsame": False,
-             "ed": {"es": [], "live": [], "t": [], "p": [], "warn": False, "same": False}}
+             "ed": {"on": bool(edit), "es": [], "live": [], "t": [], "p": [], "warn": False, "same": False}}
     if not exc:
         # an equal structure whose dict keys are inserted in the order of parse_relations
         try:
@@ -2181,7 +2183,7 @@ def record(r_py, stats=None):
         except Malformed as e:
             trace["exc"] = hexc.split(" ")[0] if hexc else "MalformedResult"
             observed["exception"] = hexc or "a later parse_relations returned a value of the wrong shape (%s)" % e
-    if not trace["exc"]:
+    if edit and not trace["exc"]:
         # the first string parsed once more; THAT structure edited in place (1 .. 4 random mutator calls at any
         # nesting level), then formatted / parsed / formatted: TLC derives the edited structure (EditTrail)
         import random
@@ -2196,7 +2198,7 @@ def record(r_py, stats=None):
             oe = run_real(live, api + 2, fault=k >> 3 if k % 2 else None, diag=stats)
             if oe["exc"]:
                 raise Malformed(oe["exc"])
-            trace["ed"] = {"es": edits, "live": abstract(live, conc), "t": tokenize(oe["s"], conc), "p": abstract(oe["p"], conc),
+            trace["ed"] = {"on": True, "es": edits, "live": abstract(live, conc), "t": tokenize(oe["s"], conc), "p": abstract(oe["p"], conc),
                            "warn": bool(oe["warn"]), "same": oe["s2"] == oe["s"]}
             observed["edited"] = {"edits": [describe_edit(e, conc) for e in edits], "structure": repr(live), "string": oe["s"],
                                   "parsed": repr(oe["p"]), "warnings": oe["warn"], "second_string": oe["s2"]}
@@ -2346,7 +2348,7 @@ def control_traces(traces):
     if t:                                           # the formatter remembered the edited copy
         t["fmtsame"] = False
         out.append(t)
-    t = first(lambda t: t["ed"]["p"] != t["p"])
+    t = first(lambda t: t["ed"]["on"] and t["ed"]["p"] != t["p"])
     if t:                                           # the edited structure was written with the text it was parsed from
         t["ed"]["t"], t["ed"]["p"] = list(t["t"]), copy.deepcopy(t["p"])
         out.append(t)
@@ -2354,9 +2356,17 @@ def control_traces(traces):
     if t:                                           # an edit the caller made is not in the history
         del t["ed"]["es"][0]
         out.append(t)
-    t = first(lambda t: True)
+    t = first(lambda t: t["ed"]["on"])
     if t:                                           # the edited structure formats differently the second time
         t["ed"]["same"] = False
+        out.append(t)
+    t = first(lambda t: t["ed"]["on"])
+    if t:                                           # the harness edited, the trace has no edits
+        t["ed"]["es"] = []
+        out.append(t)
+    t = first(lambda t: not t["ed"]["on"])
+    if t:                                           # edits logged for an execution the harness did not edit
+        t["ed"]["es"] = [{"lv": "conj", "op": "rev", "i": 0, "j": 0, "g": 0, "k": 0, "x": 0}]
         out.append(t)
     for t in traces:
         if t["kind"] == "probe" and not t["exc"]:   # a probe whose warning flag is wrong
@@ -2448,7 +2458,7 @@ def make_traces(ctx, n, nprobe, quick):
     stats, sizes = {}, {}
     while len(traces) < n:
         r_py = random_structure(ctx.rng)
-        tr, meta = record(r_py, stats)
+        tr, meta = record(r_py, stats, edit=not quick or len(traces) % 2 == 0)
         traces.append(tr)
         metas.append(meta)
         if len(traces) % 4 == 0 and len(traces) < n:      # an edited copy right after the original
@@ -2456,7 +2466,7 @@ def make_traces(ctx, n, nprobe, quick):
             traces.append(tr)
             metas.append(meta)
     for lv, count in long_list_plan(ctx.rng, quick):
-        tr, meta = record(random_structure(ctx.rng, big=lv, count=count), stats)
+        tr, meta = record(random_structure(ctx.rng, big=lv, count=count), stats, edit=not (quick and count))
         traces.append(tr)
         metas.append(meta)
         if count:
@@ -2547,7 +2557,7 @@ def _run_parallel(ctx, quick, cfg, mc_dir, workers, ccfg):
     ecfg = "MC_PkgRelationEdit_quick.cfg" if quick else "MC_PkgRelationEdit.cfg"
     econsts = cfg_constants(ecfg)
     ctx.extra["edit_history_constants"] = {k: econsts[k] for k in ("Starts", "DeepStarts", "MaxEdits")}
-    with ThreadPoolExecutor(max_workers=5) as pool:
+    with ThreadPoolExecutor(max_workers=6) as pool:
         # 1. design level + emission (closed): all structures of the space, in the background (the
         #    bookkeeping of ctx.tlc is done below, in this thread)
         f_mc = pool.submit(core.run_tlc, "PkgRelation", cfg, mc_dir, workers=8, keep_raw=True, want_tags=set(),
@@ -2560,6 +2570,7 @@ def _run_parallel(ctx, quick, cfg, mc_dir, workers, ccfg):
                              want_tags=set(), timeout=900 if quick else 3600, java_opts=["-XX:ParallelGCThreads=2", "-Xss64m"])
         # 2. the invariants can fail
         f_neg = pool.submit(spec_negative_controls, ctx, quick)
+        f_neg2 = pool.submit(edit_negative_controls, ctx, quick)
         # 3. code -> spec: recorded executions on deeper structures, validated by TLC
         #    (recorded in a background thread as well: the main thread only merges replay results)
         unspecified_zone(ctx)
@@ -2596,7 +2607,7 @@ def _run_parallel(ctx, quick, cfg, mc_dir, workers, ccfg):
         ctx.traces += nedit
         split_form_counters(ctx, diag)
         ctx.extra["diagnostics"] = dict(sorted(diag.items()))
-        ctx.extra["spec_negative_controls"] = f_neg.result()
+        ctx.extra["spec_negative_controls"] = f_neg.result() + f_neg2.result()
         traces, metas, rejected, info, fmt_drift = f_val.result()
     ctx.tlc_runs.append({"module": "PkgRelation", "generated": r.generated, "distinct": r.distinct, "depth": r.depth,
                          "wall_s": round(r.wall, 2), "violated": r.violated})
@@ -2626,7 +2637,7 @@ def replay(ctx, case):
         return "[in-place edits] " + msg if msg else None
     if case["kind"] == "trace":
         r_py = build(case["abstract"], conc)
-        tr, meta = record(r_py)
+        tr, meta = record(r_py, edit=case.get("trace", {}).get("ed", {}).get("on", True))
         rejected, info, _ = validate(ctx, [tr], with_controls=False, workers=1)
         if rejected:
             return "execution still not explained by the specification: " + explain(meta, info.get(1, 0))
